@@ -1430,13 +1430,53 @@ def parse_f64_bytes(eng, bs):
             return err(Opaque('ParseFloatError'))
         return ok(float(s))
     n = len(bs)
-    eng.assumptions.add('str::parse::<f64> is an uninterpreted function of the string (validity and value)')
+    eng.assumptions.add('str::parse::<f64>: validity = the documented grammar of f64::from_str (exact), value = uninterpreted function of the string')
     bvs = [ops.to_bv(b, 8) for b in bs]
-    vf = eng.uf('parse_f64_valid_%d' % n, *([z3.BitVecSort(8)] * n + [z3.BoolSort()]))
     val = eng.uf('parse_f64_value_%d' % n, *([z3.BitVecSort(8)] * n + [ops.F64]))
-    if eng.truth(vf(*bvs)):
+    if eng.truth(_f64_grammar(bvs)):
         return ok(val(*bvs))
     return err(Opaque('ParseFloatError'))
+
+
+def _f64_grammar(bvs):
+    """z3 Bool: the byte string matches  [+-]? ( digit* ('.' digit*)? with >=1 digit ) ([eE][+-]?digit+)?  |  [+-]?(inf|infinity|nan)"""
+    def ch(b, c):
+        return b == z3.BitVecVal(ord(c), 8)
+
+    def ci(b, c):
+        return z3.Or(b == z3.BitVecVal(ord(c), 8), b == z3.BitVecVal(ord(c.upper()), 8))
+
+    def digit(b):
+        return z3.And(z3.UGE(b, z3.BitVecVal(48, 8)), z3.ULE(b, z3.BitVecVal(57, 8)))
+    F = z3.BoolVal(False)
+    # states: 0 start, 1 signed, 2 int digits, 3 '.' after int digits, 4 '.' without int digits, 5 fraction digits,
+    #         6 after e, 7 after exponent sign, 8 exponent digits
+    cur = [z3.BoolVal(True)] + [F] * 8
+    for b in bvs:
+        d = digit(b)
+        sign = z3.Or(ch(b, '+'), ch(b, '-'))
+        dot = ch(b, '.')
+        e = ci(b, 'e')
+        nxt = [F] * 9
+        nxt[1] = z3.And(cur[0], sign)
+        nxt[2] = z3.And(z3.Or(cur[0], cur[1], cur[2]), d)
+        nxt[3] = z3.And(cur[2], dot)
+        nxt[4] = z3.And(z3.Or(cur[0], cur[1]), dot)
+        nxt[5] = z3.And(z3.Or(cur[3], cur[4], cur[5]), d)
+        nxt[6] = z3.And(z3.Or(cur[2], cur[3], cur[5]), e)
+        nxt[7] = z3.And(cur[6], sign)
+        nxt[8] = z3.And(z3.Or(cur[6], cur[7], cur[8]), d)
+        cur = nxt
+    acc = z3.Or(cur[2], cur[3], cur[5], cur[8])
+    n = len(bvs)
+    for word in ('inf', 'nan', 'infinity'):
+        for off in (0, 1):
+            if n == len(word) + off:
+                conds = [ci(bvs[off + k], word[k]) for k in range(len(word))]
+                if off:
+                    conds.append(z3.Or(ch(bvs[0], '+'), ch(bvs[0], '-')))
+                acc = z3.Or(acc, z3.And(conds))
+    return z3.simplify(acc)
 
 
 @model('str::parse', 'FromStr::from_str')
